@@ -34,6 +34,8 @@ Menu == { It("cmt", "", FALSE, <<>>), It("inc", "", FALSE, <<>>), It("abi", "", 
           It("var", "b", TRUE,  << <<R("nodef"), L("/s")>> >>),
           \* names related by prefix (a / ab), and the parser's built-in name the library does not know
           It("var", "ab", TRUE, << <<L("/w")>> >>),
+          \* a value a template or format function would misread
+          It("var", "a", FALSE, << <<L("/t$1%s")>> >>),
           It("var", "a", TRUE,  << <<R("ab"), L("/x")>> >>),
           It("var", "exec_path", TRUE, << <<L("/o"), R("profile_name"), R("a")>> >>) }
 Atts == << <<R("exec_path")>> >>
